@@ -6,10 +6,12 @@ import (
 	"strconv"
 	"strings"
 	"sync"
+	"sync/atomic"
 	"time"
 
 	"github.com/google/uuid"
 	"go.dedis.ch/onet/v3"
+	"go.dedis.ch/onet/v3/network"
 	"onetverif/harness/fix"
 	"onetverif/harness/h"
 	"onetverif/harness/sched"
@@ -32,6 +34,11 @@ func c11exec(c *h.Ctx, cs *h.Case) {
 	ov.VerifSetTreeGrace(c11grace)
 	tree, nodes := fix.BuildTree(cl.Roster, []int{-1, 0}, []int{1, 0})
 	root, child := nodes[0], nodes[1]
+	var replies int64
+	cl.Servers[0].RegisterProcessorFunc(onet.ResponseTreeMsgID, func(*network.Envelope) error {
+		atomic.AddInt64(&replies, 1)
+		return nil
+	})
 	ctl := sched.New()
 	for _, p := range []string{"tm.miss", "rt.parked", "rt.recheck-miss", "rt.unregistered", "rt.registered", "cpm.start", "cpm.done"} {
 		ctl.Pass[p] = true
@@ -203,6 +210,23 @@ func c11exec(c *h.Ctx, cs *h.Case) {
 			}
 			fix.RecOf(tok).Tni.Done()
 			cs.Impl = append(cs.Impl, obs())
+		case len(tk) == 2 && tk[1] == "peerreq":
+			// a slow peer asks for the tree; the reply goes to server 0, whose processor counts it
+			before := atomic.LoadInt64(&replies)
+			ov.Process(&network.Envelope{ServerIdentity: cl.SI(0), MsgType: onet.RequestTreeMsgID,
+				Msg: &onet.RequestTree{TreeID: tree.ID, Version: 1}})
+			answered := false
+			for dl := time.Now().Add(40 * time.Millisecond); time.Now().Before(dl); time.Sleep(200 * time.Microsecond) {
+				if atomic.LoadInt64(&replies) > before {
+					answered = true
+					break
+				}
+			}
+			if answered {
+				cs.Impl = append(cs.Impl, "answered "+obs())
+			} else {
+				cs.Impl = append(cs.Impl, "ignored "+obs())
+			}
 		case len(tk) == 2 && tk[1] == "wait":
 			time.Sleep(c11wait)
 			cs.Impl = append(cs.Impl, obs())
@@ -294,6 +318,7 @@ func c11gen(c *h.Ctx, yield func(*h.Case)) {
 	// corpus: late message during the grace period (kept the tree for ever before the repair);
 	// a run re-using the tree during the grace period; two instances sharing the tree
 	yield(&h.Case{Class: "corpus-late", Ops: []string{"c11 localstart 1", "c11 done 1", "c11 arrive 1 5", "c11 thread 1 5"}})
+	yield(&h.Case{Class: "corpus-peer-request-in-grace", Ops: []string{"c11 localstart 1", "c11 peerreq", "c11 done 1", "c11 peerreq", "c11 wait", "c11 peerreq"}})
 	yield(&h.Case{Class: "corpus-reuse", Ops: []string{"c11 localstart 1", "c11 arrive 2 5", "c11 thread 2 5", "c11 done 1", "c11 arrive 2 6", "c11 thread 2 6", "c11 done 2", "c11 arrive 3 7", "c11 thread 3 7", "c11 wait", "c11 done 3"}})
 	yield(&h.Case{Class: "corpus-race", Ops: []string{"c11 localstart 1", "c11 arrive 2 5", "c11 done 1", "c11 thread 2 5", "c11 wait", "c11 arrive 2 6", "c11 thread 2 6"}})
 	for n := 0; n < c.Pick(28, 400); n++ {
@@ -331,6 +356,8 @@ func c11gen(c *h.Ctx, yield func(*h.Case)) {
 				}
 			case x < 11 && len(known) > 0:
 				cs.Ops = append(cs.Ops, fmt.Sprintf("c11 done %d", known[r.Intn(len(known))]))
+			case x == 11 && r.Intn(2) == 0:
+				cs.Ops = append(cs.Ops, "c11 peerreq")
 			case waits < 2 && len(pending) == 0:
 				waits++
 				cs.Ops = append(cs.Ops, "c11 wait")
